@@ -1216,7 +1216,8 @@ func c18BinaryInner(t *testing.T) {
 		"unterminated-string": func(s string) string { return strings.Replace(s, "\"\n", "\n", 1) },
 		"network-twice":       func(s string) string { return s + "network: \"10.99.0.0/24\"\n" },
 		"garbage":             func(s string) string { return s + "}}}} ;; \x01\n" },
-		"cut-in-the-middle":   func(s string) string { return s[:len(s)/2] },
+		// (cut two characters into a field name: a cut at len/2 can fall on the end of an entry, and what is left is then a valid file)
+		"cut-in-the-middle": func(s string) string { return s[:strings.LastIndex(s[:len(s)/2], "\n")+3] },
 		"number-for-string":   func(s string) string { return s + "router: 42\n" },
 		"empty-file":          func(s string) string { return "" },
 		// a fault far into a long file: whatever reads the file must read all of it
@@ -1352,7 +1353,25 @@ func c18BinaryInner(t *testing.T) {
 		// parser of the text format folds them into one map entry (the later one wins) before server.New sees anything
 		{
 			atomic.AddInt64(&vl.n, 1)
-			net4 := valid.own.To4()
+			// (a host address of the configured network that is neither the server's nor another client's)
+			net4 := append(net.IP{}, valid.own.To4()...)
+			if _, ipn, err := net.ParseCIDR(valid.conf.GetNetwork()); err == nil && ipn.IP.To4() != nil {
+				lo := binary.BigEndian.Uint32(ipn.IP.To4())
+				hi := lo | ^binary.BigEndian.Uint32(net.IP(ipn.Mask).To4())
+				own := binary.BigEndian.Uint32(valid.own.To4())
+				taken := map[uint32]bool{own: true}
+				for _, cl := range valid.conf.GetClient() {
+					if ip := net.ParseIP(cl.GetIp()).To4(); ip != nil {
+						taken[binary.BigEndian.Uint32(ip)] = true
+					}
+				}
+				for d := uint32(1); d < 64; d++ {
+					if c := own ^ d; c > lo && c < hi && !taken[c] {
+						binary.BigEndian.PutUint32(net4, c^1) // (written below as net4[3]^1)
+						break
+					}
+				}
+			}
 			twice := good + fmt.Sprintf("client: { key: \"02:ee:00:00:00:77\" value: { ip: \"%d.%d.%d.%d\" } }\nclient: { key: \"02:ee:00:00:00:77\" value: { dns: \"9.9.9.9\" } }\n",
 				net4[0], net4[1], net4[2], net4[3]^1)
 			if ok, _ := startOn(twice); ok {
